@@ -265,8 +265,10 @@ def r103(chk, m):
             t.attrs['contextDepth'] = depth
             return t
         cls = {'amp': N['CellDelimiter'], 'endrow': N['EndRow'], 'cell': Cell, 'row': Row, 'item': Item, 'multicolumn': N['multicolumn'],
-               'hline': N['hline'], 'list': List, 'macro': MacroC, 'end': MacroC}[kind]
+               'hline': N['hline'], 'cline': N['cline'], 'list': List, 'macro': MacroC, 'end': MacroC}[kind]
         e = d.elem(label)
+        if kind in ('hline', 'cline'):
+            e.attrs['nodeName'] = kind
         e.cls = cls
         e.attrs.update(contextDepth=depth, endToken=None, attributes=kw.get('attributes', {}), style={}, forcePars=True)
         e.attrs.pop('blockType', None)
@@ -326,6 +328,13 @@ def r103(chk, m):
     case('a cell holding a \\multicolumn', celld, Cell,
          lambda d: (mk(d, 'cell', 'cell'), [mk(d, 'multicolumn', 'mc', attributes={'colspan': 3}), mk(d, 'amp', 'amp'), mk(d, 'cell', 'next')]),
          'cell[mc] end=amp colspan=3 left=next', 'the cell takes the span of the \\multicolumn it holds')
+    case('a cell holding a partial rule, a blank and then a \\multicolumn', celld, Cell,
+         lambda d: (mk(d, 'cell', 'cell'), [mk(d, 'cline', 'cline'), mk(d, 'text', 'ws', value=' '), mk(d, 'multicolumn', 'mc', attributes={'colspan': 2}),
+                                           mk(d, 'amp', 'amp'), mk(d, 'cell', 'next')]),
+         'cell[cline ws mc] end=amp colspan=2 left=next', 'the span is taken from the \\multicolumn wherever it stands in the cell')
+    case('a cell holding text and then a \\multicolumn', celld, Cell,
+         lambda d: (mk(d, 'cell', 'cell'), [mk(d, 'macro', 'm'), mk(d, 'multicolumn', 'mc', attributes={'colspan': 4}), mk(d, 'endrow', 'endrow')]),
+         'cell[m mc] end=None colspan=4 left=endrow', 'the span is taken from the \\multicolumn wherever it stands in the cell')
     case('a row of two cells', rowd, Row,
          lambda d: (mk(d, 'row', 'row'), [mk(d, 'cell', 'c1'), mk(d, 'text', 'a'), mk(d, 'amp', 'amp'), mk(d, 'cell', 'c2'), mk(d, 'text', 'b'),
                                          mk(d, 'endrow', 'endrow'), mk(d, 'row', 'nextrow'), mk(d, 'cell', 'c3')]),
